@@ -4,6 +4,7 @@ import (
 	"bytes"
 	"fmt"
 	"strings"
+	"unsafe"
 
 	"verif.local/simrt"
 )
@@ -70,6 +71,7 @@ func invoke(api API, c *Call, args callArgs) (o Outcome) {
 	setOut := func(out []byte, err error) {
 		o.OutNil = out == nil
 		o.Out = append(Bytes(nil), out...)
+		o.ret = out
 		if err != nil {
 			o.Status = StError
 			o.ErrType = fmt.Sprintf("%T", err)
@@ -158,6 +160,7 @@ func pristineOnce(api API, c *Call, a, b, patchText []byte, mapPolicy int, budge
 	}
 	o.Steps = w.EndCall(o.Failed(), 0)
 	o.patch = nil
+	o.ret = nil
 	return &o
 }
 
@@ -201,7 +204,39 @@ func (r *RunResult) probe(name string, n int64) {
 	}
 }
 
+// retained is a result slice the caller keeps after the call returned.
+type retained struct {
+	id   uint32
+	fn   int
+	ret  []byte
+	snap []byte
+	bad  bool
+}
+
+func overlaps(a, b []byte) bool {
+	if cap(a) == 0 || cap(b) == 0 {
+		return false
+	}
+	a, b = a[:cap(a)], b[:cap(b)]
+	pa, pb := uintptr(unsafe.Pointer(&a[0])), uintptr(unsafe.Pointer(&b[0]))
+	return pa < pb+uintptr(len(b)) && pb < pa+uintptr(len(a))
+}
+
+// checkRetained verifies that results handed out earlier still hold what they held
+// when they were returned (a result must not alias state that later calls reuse).
+func (ts *taskState) checkRetained(tname string, by string) {
+	for i := range ts.kept {
+		k := &ts.kept[i]
+		if !k.bad && !bytes.Equal(k.ret, k.snap) {
+			k.bad = true
+			ts.viol = append(ts.viol, Violation{Class: "result-clobbered", Sig: sig("result-clobbered", tname, FnNames[k.fn]), CallID: k.id,
+				Detail: fmt.Sprintf("the slice returned by call #%d %s held %q when it was returned and holds %q after %s: the result aliases memory that later calls reuse", k.id, FnNames[k.fn], k.snap, k.ret, by)})
+		}
+	}
+}
+
 type taskState struct {
+	kept     []retained
 	slots    []any
 	slotSrc  []int // buffer index a slot was decoded from (-1: empty)
 	slotSnap []string
@@ -361,6 +396,20 @@ func (rn *runner) execCalls(ts *taskState, calls []Call, want []pristinePair) {
 			}
 		}
 		o.patch = nil
+		// the caller keeps the returned slice (unless it is one of its own input buffers handed back)
+		if len(o.ret) > 0 {
+			alias := false
+			for _, in := range [][]byte{args.a, args.b} {
+				if overlaps(o.ret, in) {
+					alias = true
+				}
+			}
+			if !alias {
+				ts.kept = append(ts.kept, retained{id: c.ID, fn: c.Fn, ret: o.ret, snap: o.Out})
+			}
+		}
+		o.ret = nil
+		ts.checkRetained(tname, fmt.Sprintf("call #%d %s", c.ID, fname))
 
 		// oracle 1: outcome equals the pristine-world outcome
 		if d := Compare(c.Fn, want[i].sorted, &o); d != "" {
@@ -537,6 +586,7 @@ func Run(sc *Scenario) *RunResult {
 	}
 	all := append([]*taskState{pre}, tss...)
 	for _, ts := range all {
+		ts.checkRetained(tname, "the end of the run")
 		res.Violations = append(res.Violations, ts.viol...)
 		for k, v := range ts.probes {
 			res.Probes[k] += v
